@@ -409,6 +409,24 @@ def check_extra(res, counters):
     objs = [("datasetclass-direct", dc, {"B": 3}), ("WithOptions(datasetclass)", WithOptions(dc, {"B": 4}), {}), ("WithDefaultOptions(datasetclass)", WithDefaultOptions(dc, {"B": 4}), {}),
             ("Map(datasetclass)", Map(dc, {"B": Option("BS", [1, 2])}).values >> list, {}), ("namespace", ns, {"NS": {"A": 1}}), ("namespace-member", ns.SUB.C, {}), ("datasetclass", dc, {"B": 3}), ("interface-member", iface.m, {"IMPL": "x"}),
             ("interface-default", iface.n, {}), ("dataset-with-LogEffect", dsx, {})]
+    # the dataset class in the other dependency positions: argument of a dataset / of a pipeline step (positional
+    # and keyword), member of a collection, switch branch, coalesce member, source of >>
+    from labrea import Switch, Value, coalesce, pipeline_step
+    from labrea.collections import evaluatable_list
+
+    def _holder(v=dc):
+        return ("holder", v)
+
+    def _kwholder(*, v=dc):
+        return ("kwholder", v)
+
+    def _stepfn(x, v=dc):
+        return ("step", x, v)
+
+    objs += [("dataset(argument=datasetclass)", dataset.nocache(_holder), {"B": 3}), ("dataset(keyword argument=datasetclass)", dataset.nocache(_kwholder), {"B": 3}),
+             ("step(argument=datasetclass)", Value(1) >> pipeline_step(_stepfn), {"B": 3}), ("list(datasetclass)", evaluatable_list(dc, Value(0)), {"B": 3}),
+             ("switch-branch datasetclass", Switch(Option("K", "x"), {"x": dc}), {"B": 3}), ("coalesce(datasetclass)", coalesce(dc, Value(0)), {"B": 3}),
+             ("datasetclass >> f", dc >> w.fn("f"), {"B": 3})]
     for name, obj, o in objs:
         for op in OPS4:
             base = observe(w, lambda: getattr(obj, op)(copy.deepcopy(o)))
@@ -446,6 +464,9 @@ def check_extra(res, counters):
             got = observe(w, lambda: obj.evaluate(copy.deepcopy(o)))
         res["evaluations"] += 1
         want = ["STUB", "STUB"] if name.startswith("Map") else "STUB"
+        if name in ("dataset(argument=datasetclass)", "dataset(keyword argument=datasetclass)", "step(argument=datasetclass)", "list(datasetclass)", "datasetclass >> f"):
+            # the holder hands the substituted value on inside its own result
+            want = got.value if got.ok and "STUB" in repr(got.value) and "DC(" not in repr(got.value) else "<a value built from 'STUB'>"
         if not got.ok or got.value != want:
             fails.append({"sig": f"C18|extra|substitution|{name}", "what": f"a handler substituting the value of a dataset class is not honoured in {name}",
                           "detail": f"{got!r}, expected {want!r}", "case": ("extra",)})
